@@ -489,6 +489,7 @@ fn view_set(field: &str, v: u64, raw: &[u8]) -> Option<Vec<u8>> {
         "transport.pkt_seq" => st!(MCTPTransportHeader, set_pkt_seq, b),
         "transport.to" => st!(MCTPTransportHeader, set_to, b),
         "transport.msg_tag" => st!(MCTPTransportHeader, set_msg_tag, b),
+        "body.msg_type" => st!(MCTPMessageBodyHeader, set_msg_type, b),
         "ctrl.rq" => st!(MCTPControlMessageHeader, set_rq, b),
         "ctrl.d" => st!(MCTPControlMessageHeader, set_d, b),
         "ctrl.instance_id" => st!(MCTPControlMessageHeader, set_instance_id, b),
